@@ -1,6 +1,7 @@
 package main
 
 import (
+	"time"
 	"bytes"
 	"encoding/json"
 	"errors"
@@ -25,6 +26,7 @@ type pwOpts struct {
 	Packed   []int32 `json:"packed,omitempty"`
 	Elem     int32   `json:"elem"`      // element wire type of every packed field: 0, 5 or 1
 	MaxDepth int     `json:"max_depth"` // 0 = unset (default 64)
+	po       *opw.ParseOptions
 }
 
 func (o *pwOpts) String() string {
@@ -40,7 +42,16 @@ func has(s []int32, f int32) bool {
 	return false
 }
 
+// impl returns the (memoised) ParseOptions; ParseRawFields only ever normalises MaxDepth<=0 to 64
+// in it, which keeps its meaning.
 func (o *pwOpts) impl() *opw.ParseOptions {
+	if o.po == nil {
+		o.po = o.implNew()
+	}
+	return o.po
+}
+
+func (o *pwOpts) implNew() *opw.ParseOptions {
 	po := &opw.ParseOptions{MaxDepth: o.MaxDepth}
 	if len(o.Msg) > 0 {
 		po.MessageFields = map[int32]bool{}
@@ -112,20 +123,29 @@ var depthChoices = []int{0, 1, 2, 3}
 // relevantCombos returns every option combination that can influence the parse of b: options
 // of field f matter only if some byte has low seven bits f<<3|2 (first byte of every varint
 // spelling of that tag), max_depth only if something can nest.
+var combosByMask [8][]pwOpts
+
 func relevantCombos(b []byte) []pwOpts {
-	rel := map[int32]bool{}
-	group := false
+	mask := 0
 	for _, c := range b {
 		switch c & 0x7f {
 		case 0x0a:
-			rel[1] = true
+			mask |= 1
 		case 0x12:
-			rel[2] = true
+			mask |= 2
 		}
 		if c&7 == 3 {
-			group = true
+			mask |= 4
 		}
 	}
+	if combosByMask[mask] == nil {
+		combosByMask[mask] = buildCombos(mask&1 != 0, mask&2 != 0, mask&4 != 0)
+	}
+	return combosByMask[mask]
+}
+
+func buildCombos(rel1, rel2, group bool) []pwOpts {
+	rel := map[int32]bool{1: rel1, 2: rel2}
 	ok := func(s []int32) bool {
 		for _, f := range s {
 			if !rel[f] {
@@ -539,26 +559,44 @@ func fieldsToP(fs []opw.Field) *P {
 }
 
 // pwFailure judges one (bytes, options) pair on the Go seam. clause "" = agrees.
-func pwFailure(b []byte, o *pwOpts) (clause, detail string) {
+func pwFailure(b []byte, o *pwOpts) (clause, detail string) { return pwFailureD(b, o, true) }
+
+// pwClause is pwFailure without building the detail text (hot path).
+func pwClause(b []byte, o *pwOpts) string { c, _ := pwFailureD(b, o, false); return c }
+
+func pwFailureD(b []byte, o *pwOpts, wantDetail bool) (clause, detail string) {
 	ir := implParseGuarded(b, o)
 	if ir.Crash != "" {
 		return ir.Crash, ir.Msg
 	}
 	trees, errs := refParse(b, o, effDepth(o))
 	implAccepts := ir.Err == nil
-	refAccepts := false
-	for _, e := range errs {
-		if e == "" {
-			refAccepts = true
+	// agreement with one complete reading (a field configured packed *and* message has two)
+	for i, e := range errs {
+		if (e == "") == implAccepts && (!implAccepts || sameTree(ir.F, trees[i])) {
+			return "", ""
 		}
+	}
+	refAccepts := errs[0] == ""
+	if !wantDetail {
+		switch {
+		case implAccepts && refAccepts:
+			return "tree-differs", ""
+		case implAccepts:
+			_, e2 := refParse(b, o, 1<<30)
+			for _, e := range e2 {
+				if e == "" {
+					return "depth-limit-exceeded", ""
+				}
+			}
+			return "accept-invalid", ""
+		case errors.Is(ir.Err, opw.ErrMaxDepth):
+			return "depth-limit-early", ""
+		}
+		return "reject-valid", ""
 	}
 	switch {
 	case implAccepts && refAccepts:
-		for i, e := range errs {
-			if e == "" && sameTree(ir.F, trees[i]) {
-				return "", ""
-			}
-		}
 		return "tree-differs", fmt.Sprintf("ParseRawFields(% x, %s) = %s; the reference walker over protowire.Consume* reads %s", b, o, implTreeString(ir.F), treeString(trees[0]))
 	case implAccepts && !refAccepts:
 		_, e2 := refParse(b, o, 1<<30)
@@ -568,13 +606,12 @@ func pwFailure(b []byte, o *pwOpts) (clause, detail string) {
 			}
 		}
 		return "accept-invalid", fmt.Sprintf("ParseRawFields(% x, %s) = %s with no error; the reference walker rejects the input (bytes are not accounted for)", b, o, implTreeString(ir.F))
-	case !implAccepts && refAccepts:
+	default:
 		if errors.Is(ir.Err, opw.ErrMaxDepth) {
 			return "depth-limit-early", fmt.Sprintf("ParseRawFields(% x, %s) fails with %v although the input has no more than %d levels", b, o, ir.Err, effDepth(o))
 		}
 		return "reject-valid", fmt.Sprintf("ParseRawFields(% x, %s) fails with %v; the reference walker accepts %s", b, o, ir.Err, treeString(trees[0]))
 	}
-	return "", ""
 }
 
 // ---- classes and reduction ------------------------------------------------------------------------------------
@@ -633,17 +670,20 @@ func wireClass(b []byte, o *pwOpts) string {
 }
 
 func reducePW(b []byte, o pwOpts, clause string) ([]byte, pwOpts) {
-	fails := func(b []byte, o pwOpts) bool { c, _ := pwFailure(b, &o); return c == clause }
+	fails := func(b []byte, o pwOpts) bool { return pwClause(b, &o) == clause }
 	cur := append([]byte{}, b...)
 	for changed := true; changed; {
 		changed = false
-		for i := 0; i < len(cur) && !changed; i++ {
-			cand := append(append([]byte{}, cur[:i]...), cur[i+1:]...)
-			if fails(cand, o) {
-				cur, changed = cand, true
+		// delete any contiguous range (longest first), then any pair of single bytes
+		for l := len(cur); l >= 1 && !changed; l-- {
+			for i := 0; i+l <= len(cur) && !changed; i++ {
+				cand := append(append([]byte{}, cur[:i]...), cur[i+l:]...)
+				if fails(cand, o) {
+					cur, changed = cand, true
+				}
 			}
 		}
-		for i := 0; i < len(cur) && !changed; i++ {
+		for i := 0; i < len(cur) && !changed && len(cur) <= 40; i++ {
 			for j := i + 1; j < len(cur) && !changed; j++ {
 				cand := append(append(append([]byte{}, cur[:i]...), cur[i+1:j]...), cur[j+1:]...)
 				if fails(cand, o) {
@@ -670,15 +710,9 @@ func pwKey(b []byte, o *pwOpts, clause string) string {
 	cls := wireClass(b, o)
 	if strings.HasPrefix(clause, "depth-limit") {
 		// nesting findings are keyed by the kinds of nesting involved, not by the depth
-		k := ""
+		k := "message"
 		if strings.Contains(cls, "group") {
-			k += "group"
-		}
-		if strings.Contains(cls, "msg{") {
-			if k != "" {
-				k += "+"
-			}
-			k += "message"
+			k = "group"
 		}
 		cls = k + "-nesting"
 	}
@@ -722,14 +756,19 @@ func (r *pwRun) one(b []byte, combos []pwOpts) {
 	for ci := range combos {
 		o := &combos[ci]
 		r.calls++
-		clause, detail := pwFailure(b, o)
+		clause := pwClause(b, o)
 		if clause == "" {
 			continue
 		}
+		detail := ""
 		r.outcomes["protowire "+clause]++
 		ck := clause + "|" + wireClass(b, o)
 		if key, ok := r.cache[ck]; ok {
-			r.fs.add(key, clause, 1<<30, nil, "")
+			if r.fs.bump(key) {
+				continue
+			}
+			_, detail = pwFailure(b, o)
+			r.fs.add(key, clause, 1<<29+len(b), pwCase{Kind: "pw", Bytes: append([]byte{}, b...), Opts: *o, Descr: fmt.Sprintf("% x with %s", b, o)}, detail)
 			continue
 		}
 		rb, ro := reducePW(b, *o, clause)
@@ -826,10 +865,13 @@ func pwLadders() []ladderCase {
 	return out
 }
 
+var pwCache = map[string]string{}
+
 func pwWorker(w *pool.W, arg json.RawMessage) {
 	var sh pwShard
+	t0 := time.Now()
 	json.Unmarshal(arg, &sh)
-	run := &pwRun{fs: &failSet{}, outcomes: map[string]int64{}, cache: map[string]string{}}
+	run := &pwRun{fs: &failSet{}, outcomes: map[string]int64{}, cache: pwCache}
 	fam := ""
 	switch sh.Mode {
 	case "bytes":
@@ -910,7 +952,7 @@ func pwWorker(w *pool.W, arg json.RawMessage) {
 	if run.n > 0 {
 		run.outcomes["protowire cases"] += run.n
 	}
-	w.Emit(rec{Kind: "count", Fam: fam, N: run.n, Calls: run.calls, Outcome: run.outcomes})
+	w.Emit(rec{Kind: "count", Fam: fam, N: run.n, Calls: run.calls, Outcome: run.outcomes, Ms: time.Since(t0).Milliseconds()})
 }
 
 // pwMethodPass binds the PHP-level method (options given as PHP arrays, result as PHP arrays) to
